@@ -303,7 +303,7 @@ pub fn run_case(case: &Case, prefix: &Built) -> (Vec<(String, String)>, Info) {
                     miner: 2,
                     txs: if *with_txs { vec![TxSpec { payer: 2, payee: 3, amount_sel: 3000, fee: 1500, routers: vec![], with_path: false, max_inputs: 1 }] } else { vec![] },
                     bad_tx: None,
-                    corrupt: None,
+                    corrupt: None, back: None,
                 };
                 let want_gt = bs.gt || crate::props::c01::density_needs_gt(&builder);
                 let _ = tb;
@@ -483,7 +483,7 @@ pub fn prefix() -> Built {
             miner: 2,
             txs: vec![TxSpec { payer: (i % 3 + 1) as u8, payee: 0, amount_sel: 2000, fee: 1000, routers: vec![], with_path: false, max_inputs: 1 }],
             bad_tx: None,
-            corrupt: None,
+            corrupt: None, back: None,
         })
         .collect();
     let spec = HistSpec { ncfg, treasury: 0, issuance: vec![(0, 50_000_000), (1, 60_000_000), (2, 70_000_000), (3, 80_000_000), (1, 5_000_000), (2, 6_000_000), (3, 7_000_000)], blocks, gt_policy: true };
